@@ -156,7 +156,7 @@ class _OutOfDraws(Exception):
     pass
 
 
-def h_demo(d1: int, d2: int, d3: int, nalloc: int, commit_at: int) -> None:
+def h_demo(d1: int, d2: int, d3: int, nalloc: int, commit_at: int, abort_at: int = -1) -> None:
     """DemoStorage.new_oid with symbolic random draws never returns an id present in base, in changes,
     or issued before."""
     with untraced():
@@ -183,6 +183,15 @@ def h_demo(d1: int, d2: int, d3: int, nalloc: int, commit_at: int) -> None:
                 check(n not in present, 'demo storage issued an id that exists in a layer', n)
                 check(n not in issued, 'demo storage issued the same id twice', n)
                 issued.append(n)
+                if i == abort_at:
+                    # this id is stored in a transaction that is then aborted: the object never comes to exist, but the id
+                    # was handed out - it stays issued
+                    with untraced():
+                        n0 = realize(n)
+                    t_ = T.meta(b'u', b'aborted')
+                    s.tpc_begin(t_)
+                    s.store(n0, T.Z64, b'never-committed', '', t_)
+                    s.tpc_abort(t_)
                 if i == commit_at:
                     # this id gets used by a committed store: it is then "present", no longer "issued"; the ids
                     # issued before it to other clients stay issued
@@ -291,8 +300,9 @@ HARNESSES = [
             symbolic='3 random draws (ints in a +-6 window around all ids present/issued)',
             bounds='<= 3 allocations, <= 3 redraws; base {70,71}, changes {75}, first draw 74', oracle='set difference',
             code=['DemoStorage.new_oid', 'DemoStorage.tpc_finish (_issued_oids bookkeeping)'], pure_python=True,
-            quick=dict(timeout=150, shards=shards(nalloc=[2], commit_at=[0, -1]) + shards(nalloc=[3], commit_at=[1])),
-            thorough=dict(timeout=900, shards=shards(nalloc=[1, 2, 3], commit_at=[-1, 0, 1]))),
+            quick=dict(timeout=150, shards=shards(nalloc=[2], commit_at=[0, -1], abort_at=[-1]) + shards(nalloc=[3], commit_at=[1], abort_at=[-1])
+                  + shards(nalloc=[2], commit_at=[-1], abort_at=[0])),
+            thorough=dict(timeout=900, shards=shards(nalloc=[1, 2, 3], commit_at=[-1, 0, 1], abort_at=[-1]) + shards(nalloc=[2, 3], commit_at=[-1, 1], abort_at=[0]))),
     Harness('concurrent', h_concurrent,
             decides='two allocators interleaved at any lock operation or source line of new_oid() get different ids',
             symbolic='injection point `at` over lock operations and source lines of the new_oid in use',
